@@ -336,7 +336,10 @@ def check_c04(text, pieces, stmts, resplit):
     prob = locate_pieces(text, pieces)
     if prob:
         return ('not-a-partition', 'split', prob)
+    pos = 0
     for p, st in zip(pieces, stmts):
+        off = text.index(p, pos)
+        pos = off + len(p)
         r = resplit(p)
         if r != [p]:
             # root cause: does strip() cut into a non-whitespace token of the statement?
@@ -347,6 +350,15 @@ def check_c04(text, pieces, stmts, resplit):
                 sig = f'strip-cuts-last-token:{tname(leaves[-1].ttype)}:{stripped[:4]}'
             elif leaves and leaves[0].value != leaves[0].value.lstrip():
                 sig = f'strip-cuts-first-token:{tname(leaves[0].ttype)}'
+            elif leaves and off > 0 and p[0] in '$[:?' and (text[off - 1].isalnum() or text[off - 1] in '_"$])'):
+                # the piece starts directly behind a character that a look-behind of the dollar-quote /
+                # bracket-name / placeholder rule rejects: in the script its first token is lexed differently
+                from sqlparse import lexer
+                alone = next(iter(lexer.tokenize(p)), None)
+                if alone is not None and (tname(alone[0]), alone[1]) != (tname(leaves[0].ttype), leaves[0].value):
+                    import re
+                    how = 'glued-to-go-count' if re.search(r'(?i)\bgo\s+\d+$', text[:off]) else 'behind-lookbehind-char'
+                    sig = f'piece-starts-{how}:{p[0]}'
             return ('piece-resplits', sig, f'{p!r} -> {r!r}')
     return None
 
